@@ -266,6 +266,13 @@ def extract(missing):
     ph = fn_body(cli_rs, "parse_hash_sum") or ""
     f["pinLengthChecked"] = bool(re.search(r"if (\w+)\.len\(\) > HashSum::MAX_LEN \{\s*return Err\(", ph)) and \
         bool(re.search(r"\.value_parser\(parse_hash_sum\)", cli_rs))
+    # 10. the command line refuses chunk sizes that do not fit the 32 bit fields of the dictionary (F21 repair)
+    pco = fn_body(cli_rs, "parse_chunker_opts") or ""
+    pcc = fn_body(cli_rs, "parse_chunker_config") or ""
+    f["cliSizesFitU32"] = bool(re.search(r"if max_chunk_size > u32::MAX as usize \|\| window_size > u32::MAX as usize \{\s*return Err\(", pco)) and \
+        bool(re.search(r"if \*fixed_size > u32::MAX as usize \{\s*return Err\(", pcc)) and \
+        bool(re.search(r"if min_chunk_size > avg_chunk_size \{\s*return Err\(", pco)) and \
+        bool(re.search(r"if max_chunk_size < avg_chunk_size \{\s*return Err\(", pco))
     return f
 
 
@@ -374,6 +381,8 @@ def gen(f):
         "def verifyHashesSourceSizeOnly : Bool := %s" % ("true" if f.get("verifyHashesSourceSizeOnly") else "false"),
         "def libTempFlushedBeforeRewind : Bool := %s" % ("true" if f.get("libTempFlushedBeforeRewind") else "false"),
         "def pinLengthChecked : Bool := %s" % ("true" if f.get("pinLengthChecked") else "false"),
+        "/-- cli.rs refuses min/avg/max/window/fixed sizes beyond 32 bits (min <= avg <= max is checked as well) -/",
+        "def cliSizesFitU32 : Bool := %s" % ("true" if f.get("cliSizesFitU32") else "false"),
         "/-- `poll_read_fail` truncates a body frame longer than what is still requested -/",
         "def httpFragmentClipped : Bool := %s" % ("true" if f.get("httpFragmentClipped") else "false"),
         "",
